@@ -309,6 +309,15 @@ class SR:
     def cosh(s):
         return SR(Engine.cur.ufun('cosh', s.t))
 
+    def tanh(s):
+        return SR(Engine.cur.ufun('tanh', s.t))
+
+    def log1p(s):
+        return SR(Engine.cur.ufun('log1p', s.t))
+
+    def expm1(s):
+        return SR(Engine.cur.ufun('expm1', s.t))
+
     def conjugate(s):
         return s
     conj = conjugate
@@ -834,6 +843,15 @@ class NPProxy:
 
     def cosh(s, a):
         return s._elem('cosh', a, lambda v: float(np.cosh(v)))
+
+    def tanh(s, a):
+        return s._elem('tanh', a, lambda v: float(np.tanh(v)))
+
+    def log1p(s, a):
+        return s._elem('log1p', a, lambda v: float(np.log1p(v)))
+
+    def expm1(s, a):
+        return s._elem('expm1', a, lambda v: float(np.expm1(v)))
 
     def conj(s, a):
         return s._elem('conjugate', a, lambda v: np.conj(v))
